@@ -117,6 +117,11 @@ def run(chk, tier):
         g = progen.ProgGen(((chk.seed + 23) % 1000003) * 100003 + i, emph=("store",))
         g.feat |= {"arr", "rec", "fun", "un"}
         wide.append(g.program("ws%d" % i))
+    # ... and programs whose functions compute an expression on a path that may not run and again after the join
+    for i in range(nwide // 6):
+        g = progen.ProgGen(((chk.seed + 27) % 1000003) * 100003 + i, emph=("cse", "call"), size=6)
+        g.feat |= {"fun", "list", "for", "filt", "while"}
+        wide.append(g.program("wr%d" % i))
     famw = progcheck.Family(chk, wide, "wide", workers=vlib.NCPU, timeout=1500)
     lvl = [c for c in chosen if len(c["opts"]) == 1 and c["opts"][0] in ("-Q0", "-Q2", "-Q3", "-Q5", "-Q9", "-O")]
     progcheck.replay(chk, b, famw, [("interp " + c["opts"][0], "interp", None, tuple(c["opts"])) for c in lvl], wd)
